@@ -37,9 +37,7 @@ func genSeq(r *rand.Rand, tier string) input {
 			o := genSend(r, &in, r.IntN(in.Sessions), false)
 			for i := range o.Lat {
 				o.Lat[i], o.Ord[i] = 0, 0
-				if o.Fail[i] == 1 {
-					o.Fail[i] = 0
-				}
+				o.Fail[i] = 0
 			}
 			in.Ops = append(in.Ops, o)
 		case x < 84:
@@ -161,6 +159,7 @@ func (d *seqDriver) send(o op) {
 		}
 		o.N = 1 // a burst would race with the freshly scheduled drain
 	}
+	o.Lat, o.Fail, o.Ord = nil, nil, nil // failures are decided by the release operations
 	nrec := len(d.st.rec.sends)
 	n := d.st.emitSend(i, d.seqNo[i], o)
 	for j := 0; j < n; j++ {
